@@ -24,7 +24,7 @@ func payloadPkg(rel string) bool {
 }
 
 func checkC07(p *Prog, r *Report) {
-	r.Explain("Byte order enters the Exif decoders in exactly one way — a utils.ByteOrder value taken from the payload's TIFF header — and the rules decide that nothing else can make a result depend on it. BO-SRC: the payload packages (exif2 and its sub-packages, tiff) never name encoding/binary's byte orders; every call of a utils.ByteOrder method in the library has a receiver that flows from a ByteOrder field (Tag, Ifd, ExifHeader), a BinaryOrder result or a parameter — never a constant; every NewTag/NewIFD passes such an order. BO-BRANCH: outside meta/utils no utils.ByteOrder value is compared with BigEndian or LittleEndian (only the validity test against UnknownEndian is allowed), so no code path is chosen by the order. BO-WHOLE: the result of an order-aware read (Uint16/32/64) and the raw offset slot Tag.ValueOffset are never shifted or masked in the payload packages — splitting a value by hand is only right for one order. BO-PAIR: where Tag.EmbeddedValue re-serialises the offset slot into the scratch buffer, every order-aware read of that buffer in the same function uses the same tag's order. BO-SYM: in meta/utils each ByteOrder method calls the same-named method of binary.BigEndian exactly when the receiver is BigEndian and binary.LittleEndian otherwise, and BinaryOrder maps \"MM\\0*\"/\"II*\\0\" to BigEndian/LittleEndian. Equality of decoded values across the two orders is then a consequence; it is not computed.")
+	r.Explain("Byte order enters the Exif decoders in exactly one way — a utils.ByteOrder value taken from the payload's TIFF header — and the rules decide that nothing else can make a result depend on it. BO-SRC: the payload packages (exif2 and its sub-packages, tiff) never name encoding/binary's byte orders; every call of a utils.ByteOrder method in the library has a receiver that flows from a ByteOrder field (Tag, Ifd, ExifHeader), a BinaryOrder result or a parameter — never a constant; every NewTag/NewIFD passes such an order. BO-BRANCH: outside meta/utils no utils.ByteOrder value is compared with BigEndian or LittleEndian (only the validity test against UnknownEndian is allowed), so no code path is chosen by the order. BO-WHOLE: the result of an order-aware read (Uint16/32/64) and the raw offset slot Tag.ValueOffset are never shifted or masked in the payload packages — splitting a value by hand is only right for one order. BO-PAIR: where Tag.EmbeddedValue re-serialises the offset slot into the scratch buffer, every order-aware read of that buffer in the same function uses the same tag's order. BO-NEST: where the payload decoder parses a nested TIFF header (utils.BinaryOrder on a window of a value, as in the Nikon maker note), every directory read under the `order != UnknownEndian` test is a NewIFD built with exactly that order — not with the order of the enclosing block. BO-SYM: in meta/utils each ByteOrder method calls the same-named method of binary.BigEndian exactly when the receiver is BigEndian and binary.LittleEndian otherwise, and BinaryOrder maps \"MM\\0*\"/\"II*\\0\" to BigEndian/LittleEndian. Equality of decoded values across the two orders is then a consequence; it is not computed.")
 	r.Trusted("encoding/binary's two byte orders", "TIFF 6.0: II = little-endian, MM = big-endian")
 	nSrc, nCalls := 0, 0
 	decomp := decomposingParams(p)
@@ -132,6 +132,7 @@ func checkC07(p *Prog, r *Report) {
 	r.OK("BO-WHOLE", "payload packages | no shift or mask on order-read values", "-", "exif2/*, tiff scanned")
 	r.OK("BO-BRANCH", "library | no branch on Big/LittleEndian outside meta/utils", "-", "all library functions scanned")
 	ruleBOPair(p, r)
+	ruleBONest(p, r)
 	ruleBOSym(p, r)
 	r.Floor("BO-SRC", 20)
 	r.Floor("BO-PAIR", 4)
@@ -426,4 +427,63 @@ func sameTag(a, b ssa.Value) bool {
 		return false
 	}
 	return spill(a2, b) || spill(b2, a) || spill(a, b) || spill(b, a)
+}
+
+// ruleBONest: a nested TIFF header carries its own byte order; the directory under it must be read with it.
+func ruleBONest(p *Prog, r *Report) {
+	bof := p.Func("meta/utils", "", "BinaryOrder")
+	if bof == nil {
+		r.Undecided("BO-NEST", "meta/utils.BinaryOrder", "-", "unresolved anchor")
+		return
+	}
+	for _, f := range p.AllLibFns() {
+		g := f
+		for g.Parent() != nil {
+			g = g.Parent()
+		}
+		if g.Pkg == nil || !strings.HasPrefix(relPkg(g.Pkg.Pkg.Path()), "exif2") {
+			continue
+		}
+		eachCall(f, func(site ssa.CallInstruction) {
+			bo, ok := site.(*ssa.Call)
+			if !ok || bo.Call.StaticCallee() != bof {
+				return
+			}
+			// reads of a directory under `bo != UnknownEndian`
+			eachCall(f, func(s2 ssa.CallInstruction) {
+				sc := s2.Common().StaticCallee()
+				if sc == nil || sc.Name() != "readIfdHeader" {
+					return
+				}
+				under := false
+				for _, cd := range condsAt(s2.Block()) {
+					if b, ok := cd.V.(*ssa.BinOp); ok && (b.X == ssa.Value(bo) || b.Y == ssa.Value(bo)) && (b.Op == token.NEQ) == cd.True {
+						under = true
+					}
+				}
+				if !under {
+					return
+				}
+				key := fmt.Sprintf("%s | directory under the nested header at %s is read with its order", fnName(f), shortVal(bo.Call.Args[0]))
+				at := p.posStr(instrPos(s2))
+				arg := s2.Common().Args[len(s2.Common().Args)-1]
+				if u, ok := arg.(*ssa.UnOp); ok && u.Op == token.MUL {
+					// a local Ifd: look at what was stored into it as a whole
+					if al, ok := u.X.(*ssa.Alloc); ok {
+						for _, rf := range refs(al) {
+							if st, ok := rf.(*ssa.Store); ok && st.Addr == ssa.Value(al) {
+								arg = st.Val
+							}
+						}
+					}
+				}
+				nc, ok := arg.(*ssa.Call)
+				if ok && nc.Call.StaticCallee() != nil && nc.Call.StaticCallee().Name() == "NewIFD" && len(nc.Call.Args) > 0 && nc.Call.Args[0] == ssa.Value(bo) {
+					r.OK("BO-NEST", key, at, "NewIFD(order of the nested header, …)")
+				} else {
+					r.Bad("BO-NEST", key, at, "the nested header's byte order is computed and tested, but the directory below it is read with an Ifd that does not carry it ("+shortVal(arg)+"): a maker note whose order differs from the enclosing block is read byte-swapped")
+				}
+			})
+		})
+	}
 }
